@@ -19,9 +19,11 @@ except (ImportError, AttributeError) as e:
 from ..realise import t6  # noqa: E402
 
 
-def decode(data, w, align, blackis1, omit_false=False):
-    """ccittfaxdecode with the PDF parameter dictionary -> (bytes | None, exception name | None)"""
+def decode(data, w, align, blackis1, omit_false=False, extra=None):
+    """ccittfaxdecode with the PDF parameter dictionary -> (bytes | None, exception name | None)
+    extra: further legal entries of the dictionary (/Rows, /EndOfLine, /EndOfBlock, /DamagedRowsBeforeError)"""
     params = {"K": -1, "Columns": w}
+    params.update(extra or {})
     if align or not omit_false:
         params["EncodedByteAlign"] = bool(align)
     if blackis1 or not omit_false:
